@@ -224,6 +224,60 @@ def rand_codes(rng, table_keys):
     return out
 
 
+FOREIGN_CODES = [1, 2, 3, 4, 5, 6, 7, 8, 9, 21, 22, 23, 24, 25, 27, 28, 29, 51, 52, 53, 54, 55, 0, 39, 49,
+                 30, 31, 37, 40, 47, 90, 97, 100, 107, 10, 50, 65, 99]
+
+
+def foreign_stream(rng, newline=False):
+    """An escape-coded line as some other program might write it (only sequences whose meaning ECMA-48 / ISO 8613-6 fix)."""
+    parts = []
+    linked = False
+    for _ in range(rng.randint(1, 7)):
+        r = rng.random()
+        if r < 0.45:
+            ps = []
+            for _ in range(rng.randint(0, 4)):
+                k = rng.random()
+                if k < 0.6:
+                    ps.append(str(rng.choice(FOREIGN_CODES)))
+                elif k < 0.7:
+                    ps.append("")  # omitted parameter = 0
+                elif k < 0.85:
+                    ps += [str(rng.choice([38, 48])), "5", str(rng.choice([0, 7, 8, 15, 16, 200, 255]))]
+                else:
+                    ps += [str(rng.choice([38, 48])), "2", str(rng.randint(0, 255)), str(rng.choice([0, 255])), str(rng.randint(0, 255))]
+            parts.append(ESC + "[" + ";".join(ps) + "m")
+        elif r < 0.6:
+            if linked:
+                parts.append(ESC + "]8;;" + ESC + "\\")
+            else:
+                parts.append(ESC + "]8;" + rng.choice(["", "id=9"]) + ";" + rng.choice(["http://e.x", "ftp://a/b;c"]) + ESC + "\\")
+            linked = not linked
+        else:
+            parts.append(rng.choice(["a", "bc", "日本", " ", "x=1"]))
+    return "".join(parts)
+
+
+def classify_meaning_diff(stream, got_rows, want_rows):
+    """Narrow classifiers for the three known deviations of the decoder from ECMA-48: the slug of a deviation is
+    returned only if the stream read with exactly that one deviation explains what was observed (None = anything else,
+    including a combination)."""
+    def cells(rows):
+        rows = [[tuple(c) for c in r] for r in rows]
+        while rows and not rows[-1]:
+            rows.pop()
+        return rows
+
+    for dev, slug in (("empty", "sgr-empty-param-ignored"), ("reset-link", "sgr-reset-drops-link"), ("off-single", "sgr-off-keeps-double")):
+        try:
+            alt, _ = L.stream_meaning(stream, deviation=dev)
+        except Exception:  # noqa: BLE001
+            continue
+        if cells(alt) == cells(got_rows):
+            return slug
+    return None
+
+
 def section_decoder(ctx, tick):
     import rich.ansi as A
 
@@ -243,23 +297,19 @@ def section_decoder(ctx, tick):
         got = [(ch,) + L.style_key(st) for ch, st in zip(lines[0].plain, L.text_char_styles(lines[0], Style.combine))]
         exp = [(c[0], c[1], c[2], c[3], c[4]) for c in want[0]]
         ctx.check(got == exp, "AnsiDecoder.decode_line meaning", stream,
-                  f"decoded {got!r}, the stream means {exp!r}" if got != exp else "")
+                  f"decoded {got!r}, the stream means {exp!r}" if got != exp else "",
+                  finding=classify_meaning_diff(stream, [got], [exp]) if got != exp else None)
 
     full_nolink = sgr(1, 2, 3, 4, 5, 6, 7, 8, 9, 21, 51, 52, 53, 38, 5, 200, 48, 2, 1, 2, 3)
     for n in range(0, 301):
         decode_line_case(ctx, sgr(n) + "X", tick)
-        # ECMA-48 reading of the code on a fully set state; rich differs knowingly on 24 / 25 (it keeps the double
-        # variants) and uses 26 for "not blink2": those three are compared with the model only
-        if n in (24, 25, 26):
-            decode_line_case(ctx, full + "a" + sgr(n) + "X", tick)
-            half = sgr(1, 3, 4, 5, 7) + "a" + sgr(n) + "X"
-            if n != 26:
-                meaning_check(half)
-        else:
-            # (no hyperlink in this stream: rich's decoder drops the link at SGR 0, a terminal does not — the encoder never
-            # writes a reset inside a link, so the statement is not affected; compared with the model only)
-            decode_line_case(ctx, full + "a" + sgr(n) + "X", tick)
+        decode_line_case(ctx, full + "a" + sgr(n) + "X", tick)
+        # ECMA-48 reading of the code on a fully set state, with and without a hyperlink around it.  26 is compared with
+        # the model only: ECMA-48 gives it to proportional spacing, rich's table reads it as "not blink2".
+        if n != 26:
+            meaning_check(full + "a" + sgr(n) + "X")
             meaning_check(full_nolink + "a" + sgr(n) + "X")
+            meaning_check(sgr(1, 3, 4, 5, 7) + "a" + sgr(n) + "X")
             meaning_check(sgr(n) + "X" + sgr(0) + "Y")
         decode_line_case(ctx, sgr(38, 5, n) + "X" + sgr(48, 5, n) + "Y", tick)
         decode_line_case(ctx, sgr(38, 2, n, 0, 300 - n) + "X" + sgr(48, 2, 7, n, 1) + "Y", tick)
@@ -291,6 +341,14 @@ def section_decoder(ctx, tick):
             decode_case(ctx, nl.join(rng.sample(parts, len(parts))) + rng.choice(["", nl]), tick)
         else:
             decode_line_case(ctx, s, tick)
+    # foreign ANSI (not written by rich's encoder): well-formed SGR / OSC 8 in any order, omitted parameters, resets inside
+    # hyperlinks, every off code — the decoder must give each character the meaning ECMA-48 gives it
+    for _ in range(6000 if ctx.quick else 100000):
+        meaning_check(foreign_stream(rng))
+    for s0 in [ESC + "[1mbold" + ESC + "[mplain", ESC + "[1mb" + ESC + "[;3mi", ESC + "[1;m" + "x", ESC + "[;mx" + ESC + "[3;;4my",
+               ESC + "]8;;http://u" + ESC + "\\" + ESC + "[1mA" + ESC + "[0mB" + ESC + "]8;;" + ESC + "\\C",
+               ESC + "[21md" + ESC + "[24mn", ESC + "[6mr" + ESC + "[25ms", ESC + "[4;21mu" + ESC + "[24mn"]:
+        meaning_check(s0)
     # int() limits
     lim = sys.get_int_max_str_digits() if hasattr(sys, "get_int_max_str_digits") else 0
     if lim:
@@ -385,6 +443,9 @@ def section_roundtrip(ctx, tick):
     console, out = make_console(300)
     other, _ = make_console(300)  # a second truecolor console sharing the style objects (render caches)
     render_buffer = getattr(console, "_render_buffer", None)
+    legacy_console = None
+    if render_buffer is not None:
+        legacy_console = Console(file=io.StringIO(), force_terminal=True, color_system="truecolor", width=300, legacy_windows=True)
     shared = [gen() for _ in range(40)]  # objects reused across cases: cached `_ansi`, cached link ids
     # every attribute alone, every pair, all together, each with / without a link: the guards of _make_ansi_codes
     systematic = []
@@ -468,7 +529,34 @@ def section_roundtrip(ctx, tick):
             err = e
         wire = [(t, s, (getattr(s, "_link_id", "") if s is not None else "")) for t, s in segs]
         ans = "ok:" + enc_str(encoded) if err is None else "err:" + type(err).__name__
-        ctx.case("ansi_encode", [L.enc_segs(wire)], ans, shape="err" if err else f"n{len(segs)}", sample=f"render of {segs!r}")
+        ctx.case("ansi_encode", [0, L.enc_segs(wire)], ans, shape="err" if err else f"n{len(segs)}", sample=f"render of {segs!r}")
+        # legacy_windows=True: no hyperlink is written, everything else as before
+        if case_no % 3 == 0:
+            lerr = None
+            try:
+                lenc = "".join(st.render(text, color_system=ColorSystem.TRUECOLOR, legacy_windows=True) if st else text for text, st in segs)
+                if legacy_console is not None:
+                    l2 = legacy_console._render_buffer([Segment(t, s) for t, s in segs])
+                    ctx.check(l2 == lenc, "Console._render_buffer legacy", segs, "differs from Style.render(legacy_windows=True) of the segments")
+            except BaseException as e:
+                lerr = e
+            ctx.case("ansi_encode", [1, L.enc_segs(wire)], "ok:" + enc_str(lenc) if lerr is None else "err:" + type(lerr).__name__,
+                     shape="legacy", sample=f"legacy render of {segs!r}")
+            if lerr is None:
+                llines, lderr = decode_line_case(ctx, lenc, tick)
+                if lderr is None:
+                    want = [(ch, s if s else None) for t, s in segs for ch in t]
+                    got_styles = L.text_char_styles(llines[0], combine)
+                    ok = llines[0].plain == "".join(ch for ch, _ in want)
+                    why = "characters differ" if not ok else ""
+                    if ok:
+                        for i, (ch, s) in enumerate(want):
+                            a = L.style_key(got_styles[i])
+                            b = L.style_key(s)[:3] + (None,)
+                            if a != b:
+                                ok, why = False, f"character {i} {ch!r}: decoded {a} expected {b} (link dropped)"
+                                break
+                    ctx.check(ok, "decode(encode(segments, legacy_windows))", segs, why)
         if err is not None:
             ctx.note("encode_error:" + type(err).__name__)
             continue
@@ -654,6 +742,10 @@ def rand_line(rng, tricky):
                 parts.append(sgr(rng.choice([38, 48]), 2, rng.randint(0, 255), rng.choice([0, 255]), rng.randint(0, 255)))
         elif r < 0.62:
             parts.append(ESC + "]8;id=3;http://e.x/p" + ESC + "\\" + "lnk" + ESC + "]8;;" + ESC + "\\")
+        elif r < 0.68:
+            # foreign ANSI: omitted parameters, the off codes for the double variants, a reset inside a hyperlink
+            parts.append(rng.choice([ESC + "[m", sgr(1) + "b" + ESC + "[;3m" + "i", sgr(21) + "uu" + sgr(24) + "n", sgr(6) + "r" + sgr(25) + "s",
+                                     ESC + "]8;;http://f" + ESC + "\\" + sgr(1) + "A" + sgr(0) + "B" + ESC + "]8;;" + ESC + "\\", sgr(4, 21, 24) + "n"]))
         elif r < 0.9 or not tricky:
             parts.append(rng.choice(["[bold]b[/bold]", "[/foo]", "[red]", ":smile:", "12", "3.5", '"s"', "True", "None", "http://u.v", "[", "]", "\\[", "<a b=1>", "(1, 2)", "0x1f"]))
         else:
@@ -740,7 +832,10 @@ def eval_history(ctx, ops, check_rows, site="FileProxy"):
             gt = ["".join(c[0] for c in r) for r in got_rows]
             wt = ["".join(c[0] for c in r) for r in want_rows]
             why = f"printed rows {gt!r}, written units {wt!r}" if gt != wt else "the characters are there but their attributes / colours / links differ"
-        ctx.check(ok, site + " output", shown, why, finding="flush-prints-raw" if (not ok and raw_flush) else None)
+        finding = None
+        if not ok:
+            finding = "flush-prints-raw" if raw_flush else classify_meaning_diff("".join(u + "\n" for u in units), got_rows, want_rows)
+        ctx.check(ok, site + " output", shown, why, finding=finding)
         ctx.note("proxy_rows_checked")
     return output
 
@@ -817,15 +912,17 @@ def section_proxy(ctx, tick):
         hist, per = [], ([], [])
         for _ in range(rng.randint(2, 8)):
             w = rng.randint(0, 1)
-            op = ("w", rng.choice(["a", "b\n", sgr(1) + "c", "\n", "d" + sgr(0) + "\ne", ""])) if rng.random() < 0.8 else ("f", False)
+            op = ("w", rng.choice(["a", "b\n", sgr(1) + "c", "\n", "d" + sgr(0) + "\ne", "", sgr(31) + "r", "x" + sgr(39) + "\n"])) if rng.random() < 0.8 else ("f", False)
             hist.append((w, op))
         hist += [(0, ("f", False)), (1, ("f", False))]
         tick(hist)
-        evs = ([], [])
+        evs, all_evs = ([], []), []
         failed = False
+        order = []
         for w, op in hist:
             console.rec = []
             console.print_raised = False
+            before = len(L.spec_units(per[w])[0])
             try:
                 proxies[w].write(op[1]) if op[0] == "w" else proxies[w].flush()
             except BaseException as e:
@@ -833,64 +930,195 @@ def section_proxy(ctx, tick):
                 ctx.check(False, "FileProxy x2", hist, f"raised {type(e).__name__}: {e}")
                 break
             per[w].append(op)
-            evs[w].append(",".join(enc_call(*c) for c in console.rec))
+            order += [(w, i) for i in range(before, len(L.spec_units(per[w])[0]))]
+            ev = ",".join(enc_call(*c) for c in console.rec)
+            evs[w].append(ev)
+            all_evs.append(ev)
         if not failed:
+            wire = ",".join(("o" if w == 0 else "e") + L.enc_ops([op]) for w, op in hist)
+            ctx.case("proxy_run2", [FLAGS, wire], "/".join(all_evs), shape="two-proxies", sample=f"two proxies {hist!r}")
+            # the units of both streams, in print order, each with the meaning its own stream's escape codes give it
+            rows_w = []
             for w in (0, 1):
-                ctx.case("proxy_run", [FLAGS, L.enc_ops(per[w])], "/".join(evs[w]), shape="two-proxies")
-            # each proxy's units appear exactly once and in order in the shared output
+                units = L.spec_units(per[w])[0]
+                rows_w.append(L.stream_meaning("".join(u + "\n" for u in units))[0][: len(units)])
+            want_rows = [rows_w[w][i] for w, i in order] + [[]]
             got_rows, _ = L.stream_meaning(f.getvalue())
-            got = ["".join(c[0] for c in r) for r in got_rows]
-            ok = True
-            for w in (0, 1):
-                units, _p = L.spec_units(per[w])
-                want = ["".join(c[0] for r in L.stream_meaning(u + "\n")[0][:1] for c in r) for u in units]
-                it = iter(got)
-                ok = ok and all(any(x == g for g in it) for x in want)
-            total = sum(len(L.spec_units(per[w])[0]) for w in (0, 1))
-            ok = ok and len(got) - 1 == total
-            raw_flush = any("S=" in e for w in (0, 1) for e in evs[w])
-            ctx.check(ok, "FileProxy x2 output", hist, f"rows {got!r}", finding="flush-prints-raw" if raw_flush else None)
+            ok = got_rows == want_rows
+            raw_flush = any("S=" in e for e in all_evs)
+            ctx.check(ok, "FileProxy x2 output", hist,
+                      f"rows {[''.join(c[0] for c in r) for r in got_rows]!r}, expected {[''.join(c[0] for c in r) for r in want_rows]!r}" if not ok else "",
+                      finding="flush-prints-raw" if (raw_flush and not ok) else None)
     ctx.flush()
 
 
 # ------------------------------------------------------------------ section 5: a real live display redirects
+def safe_line(rng):
+    """One line over the property alphabet whose escape sequences mean the same to rich's decoder as written and as repaired."""
+    parts = []
+    for _ in range(rng.randint(0, 4)):
+        r = rng.random()
+        if r < 0.4:
+            parts.append(rng.choice(["a", "bc", "hello world", "x=1", "done.", "[b]m[/b]", ":smile:", "12"]))
+        elif r < 0.75:
+            parts.append(sgr(*rng.sample([1, 2, 3, 4, 7, 9, 21, 53, 22, 23, 27, 29, 55, 39, 49, 31, 37, 90, 44, 107], rng.randint(1, 3))))
+        elif r < 0.85:
+            parts.append(sgr(rng.choice([38, 48]), 2, rng.randint(0, 255), rng.choice([0, 255]), rng.randint(0, 255)))
+        elif r < 0.93:
+            parts.append(sgr(0))
+        else:
+            parts.append(ESC + "]8;id=3;http://e.x/p" + ESC + "\\" + "lnk" + ESC + "]8;;" + ESC + "\\")
+    return "".join(parts)
+
+
+BLANK_MEANING = (" ", frozenset(), None, None, None)
+
+
+def trim_row(row):
+    row = list(row)
+    while row and row[-1] == BLANK_MEANING:
+        row.pop()
+    return row
+
+
 def section_live(ctx, tick):
+    """The proxies as a live display installs them: stdout and stderr both redirected to ONE console whose output goes
+    through the display's render hook.  Observed on the terminal (harness/term.py replay of the console's file) after
+    every write: the units written so far — per stream exactly once, in order, complete, never glued across streams —
+    stand above the frame, each character with the meaning the written escape codes give it (each stream carries its
+    own SGR / hyperlink state); the frame stands once, last.  At stop() a pending partial line must be on the screen
+    above the one final frame."""
+    import gc
+
     import term
     from rich.live import Live
     from rich.progress import Progress
 
     rng = ctx.rng
-    for k in range(12 if ctx.quick else 60):
-        console, f = make_console(40)
-        lines = [rng.choice(["hello", "x=1 ok", sgr(1) + "B" + sgr(0), "p q", ""]) for _ in range(rng.randint(1, 4))]
+    FRAME = ["FRAME one", "frame two"]
+    frame_cells = [[(ch, frozenset(), None, None, None) for ch in fr] for fr in FRAME]
+    for k in range(90 if ctx.quick else 900):
+        console, f = make_console(60)
+        kind = ("live", "progress", "live-transient")[k % 3]
         so, se = sys.stdout, sys.stderr
-        installed = None
-        err = None
-        tick(lines)
+        hist = []  # (stream, op); stream 0 = stdout, 1 = stderr
+        for _ in range(rng.randint(1, 7)):
+            w = rng.randint(0, 1)
+            if rng.random() < 0.85:
+                l = safe_line(rng)
+                cut = rng.randint(0, len(l))
+                hist.append((w, ("w", l[:cut])))
+                if rng.random() < 0.3 and not any(a <= cut < b for a, b in escape_spans(l)):
+                    hist.append((w, ("f", False)))
+                hist.append((w, ("w", l[cut:] + rng.choice(["\n", "\n", "\n\n", ""]))))
+            else:
+                hist.append((w, ("f", False)))
+        r = rng.random()
+        if r < 0.4:  # nothing pending at stop
+            hist += [(0, ("f", False)), (1, ("f", False))]
+        elif r < 0.8:  # a partial line pending at stop
+            hist.append((rng.randint(0, 1), ("w", rng.choice(["part", sgr(1) + "bold part", "a [b]x"]))))
+        hold = rng.random() < 0.5
+        tick(hist)
+        shown = [("stdout" if w == 0 else "stderr",) + (("write", op[1]) if op[0] == "w" else ("flush",)) for w, op in hist]
+        err, installed, restored, held = None, None, None, None
+        done = ([], [])
+        order = []  # (stream, index of the unit in that stream) in print order
+        ok_running, why_running = True, ""
+
+        def unit_rows(w):
+            units = L.spec_units(done[w])[0]
+            return [trim_row(r) for r in L.stream_meaning("".join(u + "\n" for u in units))[0][: len(units)]]
+
         try:
-            disp = Live("LIVE", console=console, auto_refresh=False) if k % 2 == 0 else Progress(console=console, auto_refresh=False)
+            if kind == "progress":
+                disp = Progress(console=console, auto_refresh=False)
+                disp.add_task("t", total=10)
+            else:
+                disp = Live("\n".join(FRAME), console=console, auto_refresh=False, transient=kind == "live-transient")
             try:
                 with disp:
                     installed = (hasattr(sys.stdout, "rich_proxied_file"), hasattr(sys.stderr, "rich_proxied_file"))
-                    for i, l in enumerate(lines):
-                        stream = sys.stdout if i % 2 == 0 else sys.stderr
-                        cut = rng.randint(0, len(l))
-                        stream.write(l[:cut])
-                        stream.write(l[cut:] + "\n")
+                    streams = (sys.stdout, sys.stderr)
+                    if hold:
+                        held = streams
+                    for n_done, (w, op) in enumerate(hist):
+                        before = len(L.spec_units(done[w])[0])
+                        if op[0] == "w":
+                            streams[w].write(op[1])
+                        else:
+                            streams[w].flush()
+                        done[w].append(op)
+                        order += [(w, i) for i in range(before, len(L.spec_units(done[w])[0]))]
+                        if ok_running and kind != "progress" and order:
+                            per = (unit_rows(0), unit_rows(1))
+                            exp = [per[w2][i] for w2, i in order] + frame_cells
+                            rows = [trim_row([L.cell_meaning(c) for c in r]) for r in term.replay(f.getvalue(), height=50).cell_rows()]
+                            while rows and not rows[-1]:
+                                rows.pop()
+                            if rows != exp:
+                                ok_running = False
+                                why_running = (f"after {shown[: n_done + 1]!r}: screen rows {[''.join(c[0] for c in r) for r in rows]!r}, expected "
+                                               f"{[''.join(c[0] for c in r) for r in exp]!r}"
+                                               + ("" if [[c[0] for c in r] for r in rows] != [[c[0] for c in r] for r in exp] else " with other attributes / colours / links"))
+                    streams = None
             finally:
                 restored = sys.stdout is so and sys.stderr is se
                 sys.stdout, sys.stderr = so, se
         except BaseException as e:
             err = e
-        ctx.check(err is None, "Live redirect", lines, f"raised {type(err).__name__}: {err}" if err else "")
+        ctx.check(err is None, "Live redirect", shown, f"raised {type(err).__name__}: {err}" if err else "")
         if err is not None:
             continue
-        ctx.check(installed == (True, True), "Live redirect", lines, "stdout / stderr were not replaced by a FileProxy while the display was live")
-        ctx.check(restored, "Live redirect", lines, "stdout / stderr were not restored when the display stopped")
-        scr = term.replay(f.getvalue())
-        rows = [r.rstrip() for r in scr.text_rows()]
-        want = ["".join(c[0] for c in L.stream_meaning(l)[0][0]) for l in lines]
-        ctx.check(rows[: len(want)] == want, "Live redirect", lines, f"lines written while live: {want!r}; screen rows: {rows!r}")
+        ctx.check(installed == (True, True), "Live redirect", shown, "stdout / stderr were not replaced by a FileProxy while the display was live")
+        ctx.check(restored, "Live redirect", shown, "stdout / stderr were not restored when the display stopped")
+        ctx.check(ok_running, "Live redirect screen", shown, why_running)
+        # ---- after stop
+        at_stop = f.getvalue()
+        held = None
+        gc.collect()
+        final = f.getvalue()
+
+        def text_rows(data):
+            rows = ["".join(c[0] for c in r).rstrip() for r in term.replay(data, height=80).cell_rows()]
+            while rows and rows[-1] == "":
+                rows.pop()
+            return rows
+
+        per = (unit_rows(0), unit_rows(1))
+        body = ["".join(c[0] for c in per[w][i]).rstrip() for w, i in order]
+        pend = [L.spec_units(done[w])[1] for w in (0, 1)]
+        pend_rows = ["".join(c[0] for c in L.stream_meaning(p)[0][0]).rstrip() for p in pend if p]
+        rows_stop, rows_final = text_rows(at_stop), text_rows(final)
+        if kind == "progress":
+            is_frame = lambda r: r.startswith("t ") and "%" in r  # noqa: E731
+            n_frame = 1
+        else:
+            is_frame = None
+            n_frame = 0 if kind == "live-transient" else 2
+
+        def matches(rows, lines):
+            """rows == lines + the frame (once, last)"""
+            while lines and lines[-1] == "" and n_frame == 0:
+                lines = lines[:-1]
+            if kind == "progress":
+                return rows[:-1] == lines and len(rows) >= 1 and is_frame(rows[-1]) and not any(is_frame(r) for r in rows[:-1])
+            if kind == "live":
+                return rows == lines + FRAME
+            return rows == lines
+
+        if not pend_rows:
+            ok = matches(rows_stop, list(body)) and final == at_stop
+            ctx.check(ok, "Live redirect lines", shown,
+                      f"after stop the screen shows {rows_stop!r}; units in print order {body!r}" if not ok else "")
+        else:
+            ok = matches(rows_stop, body + pend_rows) and final == at_stop
+            ctx.check(ok, "Live.stop pending partial line", shown,
+                      (f"pending at stop: stdout {pend[0]!r} stderr {pend[1]!r}; screen when stop() returned {rows_stop!r}; "
+                       f"after the proxies were collected {rows_final!r}; expected {body + pend_rows!r} above one final frame") if not ok else "",
+                      finding="stop-does-not-flush-proxy" if (not ok and matches(rows_stop[: len(body)] + ([] if kind != "live" else FRAME), list(body)) or
+                                                              (not ok and rows_stop[: len(body)] == body)) else None)
+            ctx.note("live_stop_with_pending")
 
 
 # ------------------------------------------------------------------ entry points
@@ -920,7 +1148,9 @@ def run(ctx):
         "malformed parameters, OSC 8, other CSI, all line separators); encoder/round trip: seeded segment lists and printed Texts with "
         "styles from the product 13 tri-state attributes x 10 colour kinds x 10 colour kinds x 6 links on shared style objects and two "
         "consoles; proxy: every pair of cut positions (x flushes at the cuts) of fixed streams + seeded random streams cut at random "
-        "positions with empty writes and flushes, one and two proxies per console, real Live / Progress; distinct = distinct canonical requests"
+        "positions with empty writes and flushes, one and two proxies per console (interleaved, per-op events), foreign ANSI streams (omitted "
+        "parameters, resets inside hyperlinks, every off code) against an ECMA-48 interpreter, legacy_windows renders, real Live / Progress / transient "
+        "Live with both streams, terminal replay after every write and at stop (pending partial lines); distinct = distinct canonical requests"
         % (4 if ctx.quick else 5, TOK_ALPHA, len(DEC_ALPHA))
     )
 
@@ -966,6 +1196,12 @@ MANIFEST = {
     "a decoded Text with markup / emoji / highlight off), decode_total (the repaired decoder never raises).  Witnesses old_decode_raises, "
     "old_flush_prints_raw, old_write_loses_line show by evaluation that rich 9.10.0 as found (F10, F20; before fixes 8dc20cb, c4ae818) violated them; "
     "/repo contains the repaired variant.  "
+    "Two streams: proxy_two_streams — for every interleaved history on the stdout and stderr proxies a live display installs on ONE console, what is "
+    "printed on behalf of each stream is exactly the decoded units of that stream's own flattened calls (no gluing / styling across streams).  "
+    "Foreign ANSI: decode_sgr_means_ecma — the repaired decoder's loop over SGR parameters IS the ECMA-48 / ISO 8613-6 interpreter ecmaFold (written "
+    "from the standard) on attributes, colours and hyperlink, for every parameter list without 26 and every start style; "
+    "sgr_table_agrees_with_ecma48 (decide +kernel on the translated table each run); sgr_omitted_parameters_are_zero; witnesses old_empty_param_ignored "
+    "(F27), old_reset_drops_link (F28), old_off_keeps_double (F29).  legacy_windows: decode_encode_legacy (round trip with the link dropped).  "
     "Tie: ~150k (quick) / ~1.5M (thorough) generated cases compared model-vs-rich for _ansi_tokenize, re_csi removal, decode_line / decode "
     "(final decoder style included), Style.render / _render_buffer, and FileProxy histories (what the proxy asks console.print to print, per call), "
     "plus direct evaluation on rich's own output with oracles independent of the model: harness/term.py tokenizer + an ECMA-48 reading of SGR "
@@ -979,8 +1215,14 @@ MANIFEST = {
     "markup off does not raise.  Round-trip hypotheses: no ESC, BS, VT, FF, CR in text; no ESC / LF / CR in links; no `;` in link ids; colours "
     "canonical (a WINDOWS-type colour reads back as STANDARD: compared by terminal meaning in the harness, outside the theorem); AnsiDecoder.decode "
     "additionally splits at VT FF FS GS RS NEL LS PS (str.splitlines), so a printed text containing those decodes into more lines than were printed "
-    "(observed, outside the statement's texts).  Known deviations of the decoder from terminal semantics that the encoder never exercises: SGR 0 also "
-    "drops the hyperlink; 24 / 25 keep the double underline / rapid blink; `ESC [ m` (empty parameter) is ignored instead of resetting.  "
+    "(observed, outside the statement's texts).  Deviations of the decoder from ECMA-48 on foreign streams are findings with flags, witnesses and diffs: omitted parameter "
+    "ignored (F27), SGR 0 drops the hyperlink (F28), 24 / 25 keep the double variants (F29); rows 24 / 25 of the model's table come from the flag, not from "
+    "the translated table (tied by the per-code correspondence); 26 (ECMA-48: proportional spacing; rich: not blink2) and unknown colour-space selectors "
+    "after 38 / 48 are outside the theorem.  Live.stop / Progress.stop do not flush the proxies: a partial line pending at stop() is printed only when the "
+    "proxy object is collected, after the final frame (which is then drawn twice) — finding stop-does-not-flush-proxy, evaluated on the terminal replay; "
+    "FileProxy.write returns 0 instead of the number of characters (io contract; not in the property, noted only).  What the console writes for a proxied "
+    "Text under a running Live is evaluated directly by replaying the console's file on harness/term.py after every write (cell by cell with attributes / "
+    "colours / links, frame last); it is not part of the Lean model (C10's Model/Live.lean is not composed with the proxy).  "
     "Trusted: Lean kernel; axioms propext / Classical.choice / Quot.sound; translators harness/tables.py + harness/gen/sgr_map.py; the correspondence harness.",
     "design_ref": "DESIGN.md section 7, C19",
 }
